@@ -19,7 +19,7 @@ RULE = ("scenario = (history in {H1 USR2+TERM old, H2 USR2+QUIT old, H3 USR2+TER
         "H6 USR2+TERM old+USR2+TERM promoted}, bind in {tcp, unix}, worker class, signal timing); distinct = scenario tuple; every "
         "scenario is non-trivial (each has two masters alive under client load)")
 
-HISTORIES = ["H1", "H2", "H3", "H4", "H5", "H6", "H8", "H7"]
+HISTORIES = ["H1", "H2", "H3", "H4", "H5", "H6", "H8", "H7", "H9"]
 
 
 def read_pid(path):
@@ -130,7 +130,17 @@ def run_scenario(run, e4, sc):
                                            "import os, sys, time, signal, json\nif os.environ.get('GUNICORN_PID'):\n    time.sleep(3.0)\n", 1)
     if hist == "H7":
         settings["daemon"] = True       # WINCH only acts on a daemonized master
-    srv = e4.Server("c14", worker_class=wc, workers=nworkers, settings=settings, bind=sc["bind"], app_source=app_source)
+    conf_extra = ""
+    if hist == "H9":
+        # the upgrade does not get as far as a new master: the step before exec fails in the forked child (while the file
+        # "fail_exec" exists).  That is the new side stopping - the original single-master state must simply remain.
+        conf_extra = ("_pre_exec_orig = pre_exec\n"
+                      "def pre_exec(server):\n"
+                      "    _pre_exec_orig(server)\n"
+                      "    if _os.path.exists(_os.path.join(_os.path.dirname(_os.path.abspath(__file__)), 'fail_exec')):\n"
+                      "        raise RuntimeError('scripted failure before exec')\n")
+    srv = e4.Server("c14", worker_class=wc, workers=nworkers, settings=settings, bind=sc["bind"], app_source=app_source,
+                    conf_extra=conf_extra)
     pidfile = os.path.join(srv.dir, "u.pid")
     srv.write_conf(pidfile=pidfile)
     stop = threading.Event()
@@ -147,6 +157,66 @@ def run_scenario(run, e4, sc):
             t.start()
             threads.append(t)
         time.sleep(sc["delay0"])
+        if hist == "H9":
+            flag = os.path.join(srv.dir, "fail_exec")
+            open(flag, "w").close()
+            n_exec = len([e for e in srv.events() if e["kind"] == "pre_exec"])
+            srv.signal(signal.SIGUSR2, old)
+            if not wait_until(lambda: len([e for e in srv.events() if e["kind"] == "pre_exec"]) > n_exec, 10):
+                return v, "the pre_exec hook did not run", info
+            run.count("upgrades_started")
+            # the failed child takes up to graceful_timeout to go away; whatever it does on its way out, the running
+            # master's workers, socket file and pid file are not its to touch
+            t0 = time.monotonic()
+            lost = None
+            while time.monotonic() - t0 < settings["graceful_timeout"] + 3:
+                if srv.bind_kind == "unix" and not os.path.exists(srv.sockpath):
+                    lost = lost or ("unix-socket-file-removed-by-failed-upgrade", "the socket file of the running master disappeared")
+                if read_pid(pidfile) != old:
+                    lost = lost or ("pidfile-removed-by-failed-upgrade", "the pid file of the running master %d now holds %r" % (
+                        old, read_pid(pidfile)))
+                if lost:
+                    break
+                time.sleep(0.1)
+            if lost:
+                v.append(lost)
+            w_now = srv.worker_pids(old)
+            if not lost and set(w_now) != set(w_old):
+                v.append(("workers-killed-by-failed-upgrade", "the running master's workers %s were replaced (%s) although only the upgrade "
+                          "attempt failed" % (w_old, w_now)))
+            os.unlink(flag)
+            stop.set()
+            for t in threads:
+                t.join(15)
+            run.count("client_requests", len(log))
+            refused = [r for r in log if r["outcome"] in ("refused", "error")]
+            cut = [r for r in log if r["outcome"] == "truncated" or (r["outcome"] in ("reset", "timeout") and r["data"])]
+            if refused and not lost:
+                v.append(("client-refused-during-upgrade", "%d of %d connection attempts failed after the failed upgrade attempt" % (
+                    len(refused), len(log))))
+            if cut and not lost:
+                v.append(("response-cut-by-failed-upgrade", "%d responses cut: %r" % (len(cut), cut[0]["data"][:80])))
+            run.count("first_exit_observed")
+            if not v:
+                # the obstacle is gone: a later upgrade works
+                single_master_state(e4, srv, old, nworkers, pidfile, v, "after-H9")
+                run.count("single_master_state_checks")
+                wait_until(lambda: len(srv.children_of(old)) == nworkers, 8)
+                w_s = srv.worker_pids(old)
+                srv.signal(signal.SIGUSR2, old)
+                new = find_new_master(e4, srv, old, set(w_s), timeout=15)
+                if new is None:
+                    v.append(("upgrade-impossible-after-failed-attempt", "USR2 after a failed attempt produced no new master: %s" % (
+                        srv.error_log()[-300:])))
+                    final_stop(e4, srv, old, pidfile, v, run)
+                    return v, None, info
+                run.count("second_upgrade_works_checks")
+                srv.wait_workers(nworkers, 20, master=new)
+                srv.signal(signal.SIGTERM, old)
+                srv.wait_exit(old, 15)
+                time.sleep(1.5)
+                final_stop(e4, srv, new, pidfile, v, run)
+            return v, None, info
         # ---- USR2 -------------------------------------------------------------------------------
         srv.signal(signal.SIGUSR2, old)
         if hist == "H8":
@@ -345,7 +415,7 @@ def main(tier, seed):
     run = Run(PROP, tier, seed, "exploration", RULE)
     run.require("scenarios", "upgrades_started", "both_live_pidfile_checks", "second_usr2_ignored_checks", "first_exit_observed",
                 "single_master_state_checks", "second_upgrade_works_checks", "client_requests", "bind/tcp", "bind/unix",
-                "history/H1", "history/H3", "history/H5", "history/H6", "history/H8", "history/H7", "winch_backout_checks", "final_stop_checks", "respawn_after_upgrade_checks")
+                "history/H1", "history/H3", "history/H5", "history/H6", "history/H8", "history/H7", "history/H9", "winch_backout_checks", "final_stop_checks", "respawn_after_upgrade_checks")
     shards = [{"scenario": sc, "seed": seed, "tier": tier} for sc in scenarios(tier, seed)]
     run.assumptions = [
         "the new master is identified as the live child of the old master that emitted when_ready and is not one of its workers",
